@@ -1,7 +1,42 @@
 /-
   C02 specification side.
+
+  `summaryOk d out` is the statement of C02 as ONE executable oracle, written
+  from the statement and not from the code.  The *tax-inclusive* totals of the
+  taxable rows (lines, document discounts negatively, document charges) are
+  what the calculation hands to the tax summary (`Calc.pre`; how a line total
+  comes about is C01's subject).  From them the oracle derives, in exact
+  rational arithmetic with explicit "round half away from zero" points:
+
+  * the contribution of every (row, combo) pair: the row's working total (two
+    more decimals than the currency), the included tax taken out with the
+    row's own percentage of the included category, under the currency rule
+    rounded to the currency;
+  * for every presented rate group, identified by its key (country,
+    extensions, percentage and surcharge percentage by value | exempt): the
+    sum of the contributions with that category and key — the presented base
+    is that sum rounded to the currency; the amount is the percentage of that
+    sum, rounded once at the working precision of the group (the finest
+    precision among its contributions) and presented rounded to the currency;
+    likewise the surcharge;
+  * partition: no two categories with one code, no two groups with one key in
+    a category, and every contribution finds its category and its group — so
+    each taxed row total lands in exactly one rate group of its category;
+  * category amount / surcharge = Σ of the groups' working amounts, tax sum =
+    Σ ordinary − Σ retained (with surcharges), each presented rounded to the
+    currency; the document's `tax` figure is that sum;
+  * `tax_included` is the presented amount of the included category, and if no
+    other tax applies (the only category is the included one, ordinary,
+    without surcharge) the total with tax is the gross total of the rows.
+
+  The same function judges the output of the real `Invoice.Calculate`
+  (driver request `C02 summary`, harness/props/c02) and is proved of
+  `Calc.calculate exactOps` for every document (`Props.C02.tax_summary_spec`).
+
+  Core Lean only.
 -/
 import GoblVerif.Model.Calc
+import GoblVerif.Spec.C05
 
 namespace GoblVerif.Spec.C02
 open GoblVerif GoblVerif.Calc
@@ -10,5 +45,166 @@ open GoblVerif GoblVerif.Calc
     (a row counts once per such combo), as exact rationals -/
 def rowsOf (k : String) (rows : List Row) : List Rat :=
   rows.flatMap (fun rw => (rw.taxes.filter (·.cat == k)).map (fun _ => rw.total.toRat))
+
+/-! ## the summary oracle -/
+
+/-- the identity of a rate group: extensions, country, and — unless exempt — the
+    percentage and the surcharge percentage, by value -/
+abbrev GroupKey := String × String × Option (Rat × Option Rat)
+
+def keyOfCombo (cb : Combo) : GroupKey :=
+  (cb.ext, cb.country, cb.percent.map (fun p => (p.amount.toRat, cb.surcharge.map (·.amount.toRat))))
+
+def keyOfRate (rt : RateTotal) : GroupKey :=
+  (rt.ext, rt.country, rt.percent.map (fun p => (p.amount.toRat, rt.surcharge.map (·.1.amount.toRat))))
+
+/-- working total of a taxable row: two more decimals than the currency (never fewer than it has) -/
+def working (c : Nat) (rw : Row) : Amount := if rw.taxes.isEmpty then rw.total else up rw.total (c + 2)
+
+/-- the tax-exclusive total of a row: when prices include category `k` and the
+    row carries it with a percentage, that tax is taken out with that very
+    percentage, rounded half away from zero once at the row's working precision -/
+def exclusive (c : Nat) (includes : Option String) (rw : Row) : Amount :=
+  let t := working c rw
+  match includes with
+  | none => t
+  | some k =>
+    match rw.taxes.find? (fun cb => cb.cat == k) with
+    | some cb =>
+      (match cb.percent with
+       | some p => ⟨Spec.roundTo t.exp (t.toRat / (1 + p.amount.toRat)), t.exp⟩
+       | none => t)
+    | none => t
+
+/-- what one (row, combo) pair contributes, and where -/
+structure Contribution where
+  cat : String
+  key : GroupKey
+  amount : Amount
+deriving DecidableEq
+
+/-- under the currency rule a contribution is rounded to the currency before it is summed -/
+def contributed (rule : Rule) (c : Nat) (t : Amount) : Amount :=
+  match rule with
+  | .currency => ⟨Spec.roundTo c t.toRat, c⟩
+  | _ => t
+
+def contributions (rule : Rule) (c : Nat) (includes : Option String) (rows : List Row) : List Contribution :=
+  rows.flatMap (fun rw =>
+    rw.taxes.map (fun cb => ⟨cb.cat, keyOfCombo cb, contributed rule c (exclusive c includes rw)⟩))
+
+/-- the contributions to the group `(cat, k)` -/
+def groupOf (cs : List Contribution) (cat : String) (k : GroupKey) : List Amount :=
+  (cs.filter (fun x => decide (x.cat = cat ∧ x.key = k))).map (·.amount)
+
+/-- exact sum -/
+def baseQ (g : List Amount) : Rat := (g.map Amount.toRat).sum
+
+/-- working precision of a group: the finest among its contributions, at least the currency's -/
+def workExp (c : Nat) (g : List Amount) : Nat := g.foldl (fun e a => max e a.exp) c
+
+/-- `p` % of `q`, rounded half away from zero once at `e` decimals -/
+def pctAt (e : Nat) (q : Rat) (p : Pct) : Rat :=
+  ((Spec.roundTo e (q * p.amount.toRat) : Int) : Rat) / ((pow10 e : Int) : Rat)
+
+/-- the presented figure `a` is `q` rounded half away from zero to the currency -/
+def presentedAs (c : Nat) (q : Rat) (a : Amount) : Bool :=
+  decide (a.exp = c) && decide (a.value = Spec.roundTo c q)
+
+/-- working amount of a presented group (an exempt group has none) -/
+def amountQ (c : Nat) (cs : List Contribution) (cat : String) (rt : RateTotal) : Rat :=
+  let g := groupOf cs cat (keyOfRate rt)
+  match rt.percent with
+  | none => 0
+  | some p => pctAt (workExp c g) (baseQ g) p
+
+/-- working surcharge of a presented group -/
+def surchargeQ (c : Nat) (cs : List Contribution) (cat : String) (rt : RateTotal) : Option Rat :=
+  let g := groupOf cs cat (keyOfRate rt)
+  match rt.percent, rt.surcharge with
+  | some _, some (sp, _) => some (pctAt (workExp c g) (baseQ g) sp)
+  | _, _ => none
+
+/-- base = Σ contributions with the group's key; amount (surcharge) = percentage of that sum -/
+def rateOk (c : Nat) (cs : List Contribution) (cat : String) (rt : RateTotal) : Bool :=
+  presentedAs c (baseQ (groupOf cs cat (keyOfRate rt))) rt.base &&
+  presentedAs c (amountQ c cs cat rt) rt.amount &&
+  (match surchargeQ c cs cat rt, rt.surcharge with
+   | some q, some (_, sa) => presentedAs c q sa
+   | _, _ => true)
+
+def catAmountQ (c : Nat) (cs : List Contribution) (ct : CatTotal) : Rat :=
+  ((ct.rates.map (amountQ c cs ct.code)).sum : Rat)
+
+def catSurchargesQ (c : Nat) (cs : List Contribution) (ct : CatTotal) : List Rat :=
+  ct.rates.filterMap (surchargeQ c cs ct.code)
+
+/-- category amount = Σ groups; category surcharge = Σ group surcharges, presented exactly when there is one -/
+def catOk (c : Nat) (cs : List Contribution) (ct : CatTotal) : Bool :=
+  ct.rates.all (rateOk c cs ct.code) &&
+  presentedAs c (catAmountQ c cs ct) ct.amount &&
+  (match ct.surcharge with
+   | some s => !(catSurchargesQ c cs ct).isEmpty && presentedAs c ((catSurchargesQ c cs ct).sum : Rat) s
+   | none => (catSurchargesQ c cs ct).isEmpty)
+
+/-- what a category adds to the tax total: amount and surcharges, subtracted when retained -/
+def catTaxQ (c : Nat) (cs : List Contribution) (ct : CatTotal) : Rat :=
+  let v := catAmountQ c cs ct + ((catSurchargesQ c cs ct).sum : Rat)
+  if ct.retained then -v else v
+
+def pairwiseDistinct {α : Type} [DecidableEq α] : List α → Bool
+  | [] => true
+  | x :: xs => !xs.contains x && pairwiseDistinct xs
+
+/-- each contribution lands in exactly one group of its category: categories and
+    groups are unambiguous, and every contribution finds its group -/
+def partitionOk (cs : List Contribution) (cats : List CatTotal) : Bool :=
+  pairwiseDistinct (cats.map (·.code)) &&
+  cats.all (fun ct => pairwiseDistinct (ct.rates.map keyOfRate)) &&
+  cs.all (fun x => cats.any (fun ct => ct.code == x.cat && ct.rates.any (fun rt => decide (keyOfRate rt = x.key))))
+
+/-- tax total = Σ ordinary − Σ retained, incl. surcharges (a presented summary has at least one category) -/
+def taxSumOk (c : Nat) (taxQ : Rat) (t : Totals) : Bool :=
+  (match t.taxes with
+   | some x => presentedAs c taxQ x.sum && !x.cats.isEmpty
+   | none => true) &&
+  presentedAs c taxQ t.tax
+
+/-- the included tax is the presented amount of its category -/
+def includedOk (includes : Option String) (cats : List CatTotal) (t : Totals) : Bool :=
+  match includes with
+  | none => t.taxIncluded.isNone
+  | some k => decide (t.taxIncluded = (cats.find? (fun ct => ct.code == k)).map (·.amount))
+
+/-- if no other tax applies (the only category is the included one, ordinary,
+    without surcharge), the total with tax is the gross total of the rows -/
+def onlyIncludedOk (c : Nat) (includes : Option String) (cats : List CatTotal) (gross : Amount) (t : Totals) : Bool :=
+  match includes, cats with
+  | some k, [ct] =>
+    if ct.code == k && !ct.retained && ct.surcharge.isNone then presentedAs c gross.toRat t.totalWithTax else true
+  | _, _ => true
+
+/-- the categories a document presents -/
+def catsOf (t : Totals) : List CatTotal := match t.taxes with | some x => x.cats | none => []
+
+/-- the oracle over the rows `calculate` hands to the tax summary (`gross` = sum − discounts + charges of the rows) -/
+def summaryRowsOk (rule : Rule) (c : Nat) (includes : Option String) (rows : List Row) (gross : Amount)
+    (out : Out) : Bool :=
+  match out.totals with
+  | none => rows.isEmpty
+  | some t =>
+    let cs := contributions rule c includes rows
+    let cats := catsOf t
+    partitionOk cs cats &&
+    cats.all (catOk c cs) &&
+    taxSumOk c ((cats.map (catTaxQ c cs)).sum : Rat) t &&
+    includedOk includes cats t &&
+    onlyIncludedOk c includes cats gross t
+
+/-- **C02 as one executable statement** about a document and what it is calculated to -/
+def summaryOk (d : Doc) (out : Out) : Bool :=
+  match pre exactOps d with
+  | .ok p => summaryRowsOk d.rule d.c d.includes p.rows p.total2 out
+  | .error _ => false
 
 end GoblVerif.Spec.C02
